@@ -65,12 +65,19 @@ class DBroken(Controller, _Recorder):
 
 
 class _Service(Controller, _Recorder):
-    def __init__(self, target, label="svc", interval=0.5, fail_after=None, fail_how="raise"):
+    def __init__(self, target, label="svc", interval=0.5, fail_after=None, fail_how="raise",
+                 falsy=False):
         super().__init__(target)
         self.interval = interval
         self.fail_after = fail_after
         self.fail_how = fail_how
+        self.falsy = falsy
         self._constructed(label)
+
+    def __len__(self):
+        # a container-like element (say, of the jobs it has submitted): empty, hence falsy,
+        # when configured so
+        return 0 if getattr(self, "falsy", False) else 1
 
     def _beat(self, count):
         emit("beat", id=self.label, count=count)
@@ -78,6 +85,8 @@ class _Service(Controller, _Recorder):
             emit("failing", id=self.label)
             if self.fail_how == "raise":
                 raise LookupError("service %s fails" % self.label)
+            if self.fail_how == "exit":
+                raise SystemExit(3)
             return True
         return False
 
